@@ -126,12 +126,19 @@ struct SessRec {
     bool dead = false;          //!< harness knows the session is gone (ended + pumped, or deleted by the harness)
 };
 
+//! thrown out of Connection::send when one delivered string has produced more output than any terminating handler
+//! could (a handler that never terminates would otherwise eat all memory long before the watchdog sees it)
+struct RunawayOutput {};
+const uint64_t kMaxSendsPerDelivery = 1000000;
+
 struct RecConn : public Connection {
     std::map<SessionToken, SessRec> recs;
     uint64_t sends_to_unknown = 0, sends_to_dead = 0, total_sends = 0, total_bytes = 0;
+    uint64_t delivery_sends = 0;        //!< reset by the harness before every delivered string
 
     bool rec(const SessionToken &st, const std::string &s) {
         ++total_sends; total_bytes += s.size();
+        if (++delivery_sends > kMaxSendsPerDelivery) throw RunawayOutput();
         auto it = recs.find(st);
         if (it == recs.end()) { ++sends_to_unknown; return false; }
         if (it->second.dead) ++sends_to_dead;
@@ -420,8 +427,15 @@ struct Driver {
         vh::counter("deliveries");
         if (enters > 1) vh::counter("deliveries_with_several_enters");
         bool ok = false;
+        sh.conn.delivery_sends = 0;
         try {
             ok = sh.term->onRecvString(st, buf);
+        } catch (const RunawayOutput &) {
+            vh::viol("hang/runaway-output-in-one-delivery", vh::fmt("more than %llu sends while handling one delivered string; reference line(s): %s",
+                                                                    (unsigned long long)kMaxSendsPerDelivery, pending_desc().c_str()));
+            aborted = true;
+            clear_pending();
+            return;
         } catch (...) {
             std::string n = current_exception_name();
             vh::viol("uncaught-exception/" + n + "@onRecvString",
@@ -472,6 +486,7 @@ struct Driver {
             if (ended) {
                 vh::counter("sessions_ended_by_exit");
                 bool r = true;
+                sh.conn.delivery_sends = 0;
                 try { r = sh.term->onRecvString(st, "x"); } catch (...) { vh::viol("uncaught-exception/" + current_exception_name() + "@onRecvString", "after exit"); aborted = true; return; }
                 VH_CHECK(!r, "exit/session-still-alive-after-endSession", "onRecvString returned true for an ended session");
                 rec.dead = true;
@@ -491,7 +506,9 @@ struct Driver {
         desc += "\"history\\n\" ";
         vh::st().case_desc = desc;
         bool ok = false;
+        sh.conn.delivery_sends = 0;
         try { ok = sh.term->onRecvString(st, "history\n"); }
+        catch (const RunawayOutput &) { vh::viol("hang/runaway-output-in-one-delivery", "history command"); aborted = true; return; }
         catch (...) { vh::viol("uncaught-exception/" + current_exception_name() + "@onRecvString", "history command"); aborted = true; return; }
         VH_CHECK(ok, "editor/onRecvString/false-for-live-session", "history command");
         vh::counter("history_listings_checked");
@@ -955,7 +972,13 @@ struct HostileWorld {
         if (count_sub(seg, "exit") + count_sub(seg, "quit") >= 2) vh::counter("hostile_segments_with_repeated_exit");
         size_t before = sh.conn.recs[s.st].sends.size();
         bool r = false;
+        sh.conn.delivery_sends = 0;
         try { r = sh.term->onRecvString(s.st, seg); }
+        catch (const RunawayOutput &) {
+            vh::viol("hang/runaway-output-in-one-delivery", vh::fmt("more than %llu sends while handling segment \"%s\"", (unsigned long long)kMaxSendsPerDelivery, esc(seg.substr(0, 200)).c_str()));
+            aborted = true;
+            return false;
+        }
         catch (...) {
             vh::viol("uncaught-exception/" + current_exception_name() + "@onRecvString", vh::fmt("what='%s' segment=\"%s\"", current_exception_what().c_str(), esc(seg.substr(0, 200)).c_str()));
             aborted = true;
